@@ -3,8 +3,8 @@ import Nstd.Variant.Val
   The instance of `DblSem` used by the compiled driver: IEEE-754 binary64 on the 64-bit
   pattern, in exact integer arithmetic (round-to-nearest-even for `(double)n`, `atof` and
   `printf("%f")`).  The general theorems of the area hold for every `DblSem`; about this instance
-  `LemmasIeee.lean` proves that `dOfInt` is the correctly rounded integer conversion; `atof` and `%f`
-  are validated against the real code and against Python's floats by the correspondence run only.
+  `LemmasIeee.lean` proves that `dOfInt` is the correctly rounded integer conversion and that `atof` of a plain
+  integer numeral is; the rest of `atof` and `%f` are validated against the real code and against Python's floats by the correspondence run only.
 
   `ofStr` covers what `strtod` accepts: decimal with exponent, hexadecimal floats, inf, nan.
 -/
@@ -117,64 +117,65 @@ def isHexFloat (s : Str) : Bool :=
        | [] => false)
   | _ => false
 
-/-- `strtod(s, 0)` of a C string -/
-def dOfStr (s : Str) : Nat :=
-  let s := s.dropWhile isSpace
-  let (neg, s) := match s with
-    | 45 :: t => (true, t)
-    | 43 :: t => (false, t)
-    | s => (false, s)
-  let sg : Nat := if neg then 2 ^ 63 else 0
+/-- exponent part `[eE][+-]?digits` / `[pP][+-]?digits` (marker characters `c1`, `c2`); 0 when absent or without digits -/
+def expPart (c1 c2 : Nat) (r : Str) : Int :=
+  match r with
+  | c :: t =>
+    if c == c1 || c == c2 then
+      let (eneg, t) := match t with
+        | 45 :: u => (true, u)
+        | 43 :: u => (false, u)
+        | u => (false, u)
+      let (ed, _) := takeDigits t
+      if ed.isEmpty then 0 else (if eneg then -(digitsVal ed 0 : Int) else (digitsVal ed 0 : Int))
+    else 0
+  | [] => 0
+
+/-- hexadecimal float after the sign (`sg` = sign bit) -/
+def dHex (sg : Nat) (s : Str) : Nat :=
+  let (ih, r) := takeHex (s.drop 2)
+  let (fh, r) := match r with
+    | 46 :: t => takeHex t
+    | r => ([], r)
+  let ex : Int := expPart 112 80 r
+  let hv := hexVal' (ih ++ fh) 0
+  let e2 : Int := ex - 4 * fh.length
+  if hv == 0 then sg
+  else if e2 > 5000 then sg + 2047 * 2 ^ 52
+  else if e2 < -5000 then sg
+  else if e2 ≥ 0 then sg + dOfRat (hv * 2 ^ e2.toNat) 1
+  else sg + dOfRat hv (2 ^ (-e2).toNat)
+
+/-- decimal float after the sign: digits, optional fraction, optional exponent; no digit at all = no conversion = +0.0 -/
+def dDecimal (sg : Nat) (s : Str) : Nat :=
+  let (ip, r) := takeDigits s
+  let (fp, r) := match r with
+    | 46 :: t => takeDigits t
+    | r => ([], r)
+  if ip.isEmpty && fp.isEmpty then 0
+  else
+    let ex : Int := expPart 101 69 r
+    let dv := digitsVal (ip ++ fp) 0
+    let e10 : Int := ex - fp.length
+    if dv == 0 then sg
+    else if e10 > 400 then sg + 2047 * 2 ^ 52
+    else if e10 < -800 then sg
+    else if e10 ≥ 0 then sg + dOfRat (dv * 10 ^ e10.toNat) 1
+    else sg + dOfRat dv (10 ^ (-e10).toNat)
+
+/-- what follows the optional sign -/
+def dOfStrMag (sg : Nat) (s : Str) : Nat :=
   if startsWithCI s [105, 110, 102] then sg + 2047 * 2 ^ 52
   else if startsWithCI s [110, 97, 110] then sg + 2047 * 2 ^ 52 + 2 ^ 51
-  else if isHexFloat s then
-    let (ih, r) := takeHex (s.drop 2)
-    let (fh, r) := match r with
-      | 46 :: t => takeHex t
-      | r => ([], r)
-    let ex : Int := match r with
-      | c :: t =>
-        if c == 112 || c == 80 then
-          let (eneg, t) := match t with
-            | 45 :: u => (true, u)
-            | 43 :: u => (false, u)
-            | u => (false, u)
-          let (ed, _) := takeDigits t
-          if ed.isEmpty then 0 else (if eneg then -(digitsVal ed 0 : Int) else (digitsVal ed 0 : Int))
-        else 0
-      | [] => 0
-    let hv := hexVal' (ih ++ fh) 0
-    let e2 : Int := ex - 4 * fh.length
-    if hv == 0 then sg
-    else if e2 > 5000 then sg + 2047 * 2 ^ 52
-    else if e2 < -5000 then sg
-    else if e2 ≥ 0 then sg + dOfRat (hv * 2 ^ e2.toNat) 1
-    else sg + dOfRat hv (2 ^ (-e2).toNat)
-  else
-    let (ip, r) := takeDigits s
-    let (fp, r) := match r with
-      | 46 :: t => takeDigits t
-      | r => ([], r)
-    if ip.isEmpty && fp.isEmpty then 0
-    else
-      let ex : Int := match r with
-        | c :: t =>
-          if c == 101 || c == 69 then
-            let (eneg, t) := match t with
-              | 45 :: u => (true, u)
-              | 43 :: u => (false, u)
-              | u => (false, u)
-            let (ed, _) := takeDigits t
-            if ed.isEmpty then 0 else (if eneg then -(digitsVal ed 0 : Int) else (digitsVal ed 0 : Int))
-          else 0
-        | [] => 0
-      let dv := digitsVal (ip ++ fp) 0
-      let e10 : Int := ex - fp.length
-      if dv == 0 then sg
-      else if e10 > 400 then sg + 2047 * 2 ^ 52
-      else if e10 < -800 then sg
-      else if e10 ≥ 0 then sg + dOfRat (dv * 10 ^ e10.toNat) 1
-      else sg + dOfRat dv (10 ^ (-e10).toNat)
+  else if isHexFloat s then dHex sg s
+  else dDecimal sg s
+
+/-- `strtod(s, 0)` of a C string -/
+def dOfStr (s : Str) : Nat :=
+  match s.dropWhile isSpace with
+  | 45 :: t => dOfStrMag (2 ^ 63) t
+  | 43 :: t => dOfStrMag 0 t
+  | s => dOfStrMag 0 s
 
 def ieee : DblSem where
   isZero := dIsZero
